@@ -29,6 +29,7 @@ def run(ctx, rep):
     PR.ws_struct(rep, lib)
     PR.input_decides(rep, lib)
     PR.digits(rep, lib)
+    PR.reader_state(rep, lib)
     NR.parse_direct(rep, lib)
     NR.int_ctor(rep, lib)
     NR.float_window(rep, lib)
